@@ -5,7 +5,7 @@ Import ListNotations.
 Local Open Scope N_scope.
 
 Definition rx_with (buf : list N) (crc : N) : rxs :=
-  {| r_synced := true; r_buf := buf; r_esc := false; r_crc := crc |}.
+  {| r_synced := true; r_buf := buf; r_esc := false; r_crc := crc; r_ovf := false |}.
 
 Lemma rx_run_app s a b :
   rx_run s (a ++ b) = let '(s1, o1) := rx_run s a in let '(s2, o2) := rx_run s1 b in (s2, o1 ++ o2).
@@ -21,7 +21,7 @@ Lemma special_xor_not_special b : is_special b = true ->
 Proof. intros H. apply is_special_cases in H as [-> | ->]; split; reflexivity. Qed.
 
 Definition rx_esc (buf : list N) (crc : N) : rxs :=
-  {| r_synced := true; r_buf := buf; r_esc := true; r_crc := crc |}.
+  {| r_synced := true; r_buf := buf; r_esc := true; r_crc := crc; r_ovf := false |}.
 
 Lemma rx_byte_escape buf crc : rx_byte (rx_with buf crc) pkt_escape = (rx_esc buf crc, RxNone).
 Proof. reflexivity. Qed.
@@ -30,7 +30,7 @@ Lemma rx_byte_data_esc buf crc d : (d =? pkt_magic) = false -> (d =? pkt_escape)
   nlen buf < rx_buf_size ->
   rx_byte (rx_esc buf crc) d = (rx_with (buf ++ [N.lxor d 32]) (crc_step crc (N.lxor d 32)), RxNone).
 Proof.
-  intros E1 E2 Hlen. apply N.leb_gt in Hlen. unfold rx_byte, rx_esc. cbn [r_synced r_buf r_esc r_crc negb].
+  intros E1 E2 Hlen. apply N.leb_gt in Hlen. unfold rx_byte, rx_esc. cbn [r_synced r_buf r_esc r_crc r_ovf negb].
   rewrite E1, E2, Hlen. reflexivity.
 Qed.
 
@@ -38,7 +38,7 @@ Lemma rx_byte_data buf crc d : (d =? pkt_magic) = false -> (d =? pkt_escape) = f
   nlen buf < rx_buf_size ->
   rx_byte (rx_with buf crc) d = (rx_with (buf ++ [d]) (crc_step crc d), RxNone).
 Proof.
-  intros E1 E2 Hlen. apply N.leb_gt in Hlen. unfold rx_byte, rx_with. cbn [r_synced r_buf r_esc r_crc negb].
+  intros E1 E2 Hlen. apply N.leb_gt in Hlen. unfold rx_byte, rx_with. cbn [r_synced r_buf r_esc r_crc r_ovf negb].
   rewrite E1, E2, Hlen. reflexivity.
 Qed.
 
@@ -87,7 +87,7 @@ Lemma rx_segment u : u <> [] -> nlen u <= rx_buf_size ->
   (rx_fresh, if crc8 u =? 0 then deliver_packet (removelast u) else [Dropped]).
 Proof.
   intros Hne Hlen. rewrite rx_run_app, rx_fresh_is, rx_run_escape by (cbn; exact Hlen).
-  cbn [app rx_run]. unfold rx_byte. cbn [rx_with r_synced r_buf r_crc negb]. rewrite N.eqb_refl.
+  cbn [app rx_run]. unfold rx_byte. cbn [rx_with r_synced r_buf r_crc r_ovf negb]. rewrite N.eqb_refl.
   destruct u as [|x u']; [congruence|]. fold (crc8 (x :: u')).
   destruct (crc8 (x :: u') =? 0); cbn [app]; rewrite ?app_nil_r; reflexivity.
 Qed.
@@ -111,17 +111,15 @@ Proof.
 Qed.
 
 (* bytes without a delimiter never deliver or drop anything *)
-Lemma rx_no_magic_silent x : ~ In pkt_magic x -> forall s,
-  Forall (fun it => match it with Faulted _ => True | _ => False end) (snd (rx_run s x)).
+Lemma rx_no_magic_silent x : ~ In pkt_magic x -> forall s, snd (rx_run s x) = [].
 Proof.
-  induction x as [|b x IH]; intros Hn s; cbn [rx_run]; [constructor|].
+  induction x as [|b x IH]; intros Hn s; cbn [rx_run]; [reflexivity|].
   assert (Hb : (b =? pkt_magic) = false) by (apply N.eqb_neq; intro; apply Hn; left; congruence).
-  assert (Ho : match snd (rx_byte s b) with RxNone | RxFault _ => True | _ => False end).
-  { unfold rx_byte. rewrite Hb. destruct (negb (r_synced s)); cbn; [exact I|].
-    destruct (b =? pkt_escape); cbn; [exact I|]. destruct (rx_buf_size <=? nlen (r_buf s)); cbn; exact I. }
-  destruct (rx_byte s b) as [s1 o]. specialize (IH (fun H => Hn (or_intror H)) s1).
-  destruct (rx_run s1 x) as [s2 rest]. cbn [snd] in *.
-  destruct o; try contradiction; cbn [app]; [exact IH|constructor; [exact I|exact IH]].
+  assert (Ho : snd (rx_byte s b) = RxNone).
+  { unfold rx_byte. rewrite Hb. destruct (negb (r_synced s)); cbn; [reflexivity|].
+    destruct (b =? pkt_escape); cbn; [reflexivity|]. destruct (rx_buf_size <=? nlen (r_buf s)); reflexivity. }
+  destruct (rx_byte s b) as [s1 o]. cbn [snd] in Ho. subst o.
+  specialize (IH (fun H => Hn (or_intror H)) s1). destruct (rx_run s1 x) as [s2 rest]. cbn [snd] in *. rewrite IH. reflexivity.
 Qed.
 
 (* ------------------------------------------------------------------ field extraction *)
@@ -171,6 +169,34 @@ Proof.
   rewrite <- Hpre. rewrite firstn_app, Nat.sub_diag, firstn_all. cbn [firstn]. rewrite app_nil_r. reflexivity.
 Qed.
 
+Lemma addr_end_skip pre : Forall (fun b => b <> 0) pre -> forall fuel hd post i,
+  (length pre < fuel)%nat -> i = length hd ->
+  addr_end fuel (hd ++ pre ++ 0 :: post) i = (i + length pre)%nat.
+Proof.
+  induction pre as [|b pre IH]; intros Hnz fuel hd post i Hf Hi.
+  - destruct fuel; [cbn in Hf; lia|]. cbn [addr_end app]. subst i.
+    rewrite nth_error_app2 by lia. rewrite Nat.sub_diag. cbn. lia.
+  - inversion Hnz as [|? ? Hb Hr]; subst. destruct fuel; [cbn in Hf; lia|]. cbn [addr_end].
+    rewrite nth_error_app2 by lia. rewrite Nat.sub_diag. cbn [nth_error app].
+    apply N.eqb_neq in Hb. rewrite Hb.
+    replace (hd ++ b :: pre ++ 0 :: post) with ((hd ++ [b]) ++ pre ++ 0 :: post) by (rewrite <- app_assoc; reflexivity).
+    rewrite (IH Hr fuel (hd ++ [b]) post (S (length hd))); [cbn; lia|cbn in Hf; lia|rewrite app_length; cbn; lia].
+Qed.
+
+Lemma valid_encode a3 sq ty data m : encode_msg a3 sq ty data = Some m -> valid_msg (nlen m) m = true.
+Proof.
+  unfold encode_msg. destruct (255 <? _) eqn:E; [discriminate|]. intros H. injection H as <-.
+  destruct (addr_bytes_shape a3) as (pre & Hab & Hpre & Hnz & Hlen). rewrite Hab.
+  set (l0 := nlen data + nlen (pre ++ [0]) + 3 - 1).
+  unfold valid_msg. rewrite N.eqb_refl. cbn [andb].
+  change (l0 :: (pre ++ [0]) ++ [sq; ty] ++ data) with ([l0] ++ (pre ++ [0]) ++ [sq; ty] ++ data).
+  rewrite <- (app_assoc pre [0]). cbn [app].
+  change (l0 :: pre ++ 0 :: sq :: ty :: data) with ([l0] ++ pre ++ 0 :: sq :: ty :: data).
+  rewrite (addr_end_skip pre Hnz _ [l0] (sq :: ty :: data) 1%nat); [|rewrite !app_length; cbn; lia|reflexivity].
+  apply andb_true_iff. split; [apply Nat.leb_le; lia|].
+  apply Nat.ltb_lt. rewrite !app_length. cbn [length]. lia.
+Qed.
+
 (* ------------------------------------------------------------------ splitting a payload *)
 Lemma split_packet_concat (l : list (list N)) : wf_msgs l -> forall fuel,
   (length (concat l) <= fuel)%nat ->
@@ -204,7 +230,7 @@ Proof.
   induction 1 as [|m r (a3 & sq & ty & data & Hm) _ (xs & IH1 & IH2 & IH3)].
   - exists []. repeat split; constructor.
   - pose proof (parse_encode a3 sq ty data m Hm) as Hp.
-    eexists (_ :: xs). cbn [map parse_all]. rewrite Hp, IH1. split; [reflexivity|]. split.
+    eexists (_ :: xs). cbn [map parse_all]. rewrite (valid_encode a3 sq ty data m Hm), Hp, IH1. split; [reflexivity|]. split.
     + cbn. rewrite IH2. reflexivity.
     + constructor; [unfold fields; rewrite Hp; reflexivity|exact IH3].
 Qed.
